@@ -29,7 +29,8 @@ LEVEL = "exploration"
 RULE = (
     "seeded (y_true,y_pred) histories (30-150 samples, sequential; 30-70 under the thread scheduler) x time_decay_factor x levels x "
     "burn_in x subsample x round_val x every subset of tracked rates x num_mc 5-25, numpy seed schedule owned by the simulator; "
-    "sequential and parallelize=True under a seeded baton scheduler (p_switch 0.01-0.3 per line of lfr.py); after every sample the "
+    "sequential and parallelize=True under a seeded baton scheduler (p_switch 0.01-0.3 per line of lfr.py; scenario par_split: per "
+    "statement of a copy of lfr.py whose read-modify-write statements are split into load / compute / store lines); after every sample the "
     "state is compared with the specification evaluated on the recorded Monte-Carlo draws (confusion matrix, rates, statistics, "
     "recorded (p, size) arguments, bounds, flags, retraining_recs); separate scenario validates the bounds statistically "
     "(5 sigma bands, 200k independent draws). Non-trivial: >=1 drift and >=1 warning; distinct = digests (thread-switch logs included)."
@@ -45,7 +46,9 @@ _WARM = {"done": False}
 
 def scenarios(tier):
     k = 1 if tier == "quick" else 8
-    return [("seq", 400 * k), ("par", 240 * k), ("bounds", 48 * (1 if tier == "quick" else 4)), ("long", 24 * k), ("first", 120 * k)]
+    # par_split: as par, on a copy of lfr.py in which every read-modify-write of an attribute / item is spread over lines of its
+    # own (sim/split.py), so that the line-granular scheduler can pre-empt between a load and its store
+    return [("seq", 400 * k), ("par", 160 * k), ("par_split", 160 * k), ("bounds", 48 * (1 if tier == "quick" else 4)), ("long", 24 * k), ("first", 120 * k)]
 
 
 def gen(rng, scenario, tier):
@@ -77,7 +80,7 @@ def gen(rng, scenario, tier):
     n = rng.randint(30, 150) if scenario == "seq" else rng.randint(30, 70)
     ys, drifts = workload.outcomes(rng, n)
     case = {"cfg": cfg, "events": [[yt, yp, np_seed(rng)] for yt, yp in ys]}
-    if scenario == "par":
+    if scenario in ("par", "par_split"):
         case["sched"] = {"seed": rng.randrange(2**31), "p_switch": rng.choice([0.01, 0.05, 0.1, 0.3])}
     return case
 
@@ -91,9 +94,25 @@ def run(case, ctx):
     with record_np_random(lm, log) as have:
         if not have:
             ctx.note("draws_unverified:seam_missing")
-        if case["scenario"] == "par":
+        if case["scenario"] == "par_split":
+            from sim.split import load_split
+
+            lm2 = load_split(lm)
+            ctx.fault("statements_split_for_preemption", lm2.__split_count__)
+            with record_np_random(lm2, log):
+                if not _WARM.get("split"):
+                    _warm_up(lm2)
+                    _WARM["split"] = True
+                fac = SimParallelFactory(case["sched"]["seed"], case["sched"]["p_switch"], lm2.__file__)
+                with rebind(lm2, Parallel=fac.Parallel, delayed=fac.delayed) as missing:
+                    if missing:
+                        ctx.note("thread_seam_missing")
+                        raise EndRun()
+                    body(case, ctx, lm2, log, fac)
+        elif case["scenario"] == "par":
             if not _WARM["done"]:
                 _warm_up(lm)
+                _WARM["done"] = True
             fac = SimParallelFactory(case["sched"]["seed"], case["sched"]["p_switch"], lm.__file__)
             with rebind(lm, Parallel=fac.Parallel, delayed=fac.delayed) as missing:
                 if missing:
@@ -113,7 +132,6 @@ def _warm_up(lm):
         np.random.seed(1)
         for i in range(6):
             d.update(i % 2, (i // 2) % 2)
-    _WARM["done"] = True
 
 
 def body(case, ctx, lm, log, fac):
@@ -289,7 +307,7 @@ def truncate(case, step):
 
 
 def shrink(case):
-    if case.get("scenario") == "par":
+    if case.get("scenario") in ("par", "par_split"):
         c = dict(case)
         c["scenario"] = "seq"   # does it need the scheduler at all?
         c.pop("sched", None)
